@@ -4,7 +4,7 @@ BASE_NOTE = ("Trusted: Coq 8.16.1 kernel (vm_compute for witnesses/examples only
              "the correspondence harness (generators, exact-rational canonicalisation, observation mapping); CPython 3.12/numpy "
              "float64 semantics on the exact (dyadic) input families. The theorems are about the Gallina model; the tie to /repo/src "
              "is the correspondence run on every check (sampled, not proved). ")
-SOURCE_COMMITS = ["bc49a1c", "e3a7f92", "9ed7728", "007ee91", "c29e4c1", "17a47e5", "867807e", "949de5f", "5cc174a", "d64e197"]   # "fix:" commits only (no guarded hooks exist)
+SOURCE_COMMITS = ["bc49a1c", "e3a7f92", "9ed7728", "007ee91", "c29e4c1", "17a47e5", "867807e", "949de5f", "5cc174a", "d64e197", "df761a4"]   # "fix:" commits only (no guarded hooks exist)
 NOTES = ("Every check: (1) rebuilds the Coq development incrementally and re-checks coq/Props/<id>.v (grep gate for Admitted/Axiom/...); "
          "(2) runs physt from /repo/src and the extracted model on the same seeded cases; (3) applies the extracted check_<id> to the "
          "implementation's observation. VIOLATION lines carry a replay file; 'no-failing-input-found' is appended when only the "
@@ -48,6 +48,17 @@ CLAIMED = {
          "recorded finding F19. Every generated history is executed on physt step by step (returned index, find_bin before the "
          "call, state untouched by find_bin, contents, errors2, missed) and compared with one-shot construction."),
    note=BASE_NOTE + "Modelled, not verified: dtype coercion inside fill/fill_n (C13), statistics update (C14), adaptive growth (C04)."),
+ "C05": dict(
+   technique="Coq proofs (pointwise sum, commutativity/associativity, promotion lattice, conservation on the union grid) + extracted-model correspondence",
+   text=("Theorems: same-bins addition is the pointwise sum of contents/errors2/missed with dtype = promote_types (a semilattice "
+         "join: comm/assoc/idempotent by exhaustive case analysis) and added statistics; commutativity; associativity of every "
+         "component; construction is additive in the data (h(A)+h(B)=h(A++B) at spec level); adaptive fixed-width addition moves "
+         "both operands onto exactly the union range and conserves totals (1-D end-to-end; per-axis shift conservation for any "
+         "dimension). The full refinement statement check_C05 c (run_C05 c) = true is exercised, not proved: every generated "
+         "expression tree (+, folds, sum()) over 2-5 operands is evaluated by physt and by the extracted model, and the extracted "
+         "order-free specification (union grid + embedding) is applied to physt's result; operands are snapshotted before/after."),
+   note=BASE_NOTE + "Modelled, not verified: np.allclose in has_same_bins (exact-rational transcription), dask chunk reduction "
+        "(C17), _merge_meta_data."),
  "C10": dict(
    technique="Coq proof (induction over arbitrary frequency lists / N-d arrays) + extracted-model correspondence",
    text=("Theorems (all sizes, all dimensions, closed under the global context): the min_frequency loop always yields a gap-free "
